@@ -84,6 +84,8 @@ func C14(ctx *core.Ctx, r *core.Report) {
 	fixedBuffer(ctx, r, e.reach, c14OutOfScope, nil, 2)
 	c14ModuleXorError(ctx, r)
 	c14GuardBacking(ctx, r)
+	// an import of a submodule that is not merged is never resolved: its module stays nil
+	c01SubmoduleMergeComplete(ctx, r)
 	c14Recursion(ctx, r, roots)
 	lexerCycleAdvances(ctx, r, "parser", e.reach, c14LexTriage, 8)
 	// a failed builder call leaves nil on the parser's stack unless the action stops the parse
